@@ -67,7 +67,7 @@ func c18readAll(r io.Reader) (objs []c18obj, failed bool) {
 func Harness_C18_packfile() {
 	buf := bytes.NewBuffer(nil)
 	pw, _ := NewPackfileWriter(buf)
-	pw.WriteObject(ObjectBlock, []byte("abc")[:zzverif.Param("len1", 2)])
+	pw.WriteObject(ObjectBlock, []byte("abcdef")[:zzverif.Param("len1", 2)])
 	pw.WriteObject(ObjectCommit, []byte("c"))
 	whole, wf := c18readAll(bytes.NewReader(buf.Bytes()))
 	zzverif.Assert("whole-stream-decodes", !wf && len(whole) == 2)
